@@ -45,7 +45,7 @@ fn uncovered_on(l: &[GTx], d: NaiveDate, tk: &str) -> bool {
 fn gen_hostile(r: &mut Rng, base: &Ledger) -> Ledger {
     let mut l = base.clone();
     if l.is_empty() { return l; }
-    match r.below(8) {
+    match r.below(9) {
         5 => {
             // several disposals on different days all identified with one later purchase, then a further
             // sale before that purchase arrives (covered, or short by a few shares)
@@ -89,6 +89,19 @@ fn gen_hostile(r: &mut Rng, base: &Ledger) -> Ledger {
             let s2 = (left + Decimal::from(*r.pick(&[0i64, 0, -1, 1, 10, -10]))).max(Decimal::ONE);
             l.push(GTx::new(d2, &tk, Kind::Sell, s2, Decimal::TWO, Decimal::ZERO));
             l.push(GTx::new(d2 + Duration::days(r.range(2, 12)), &tk, Kind::Buy, back, Decimal::from(3), Decimal::ZERO));
+        }
+        7 => {
+            // a sale of the whole holding plus a sliver (10⁻⁶ … 10⁻¹² of a share), or of exactly the holding;
+            // sometimes with a repurchase a week later, sometimes after a consolidation by 2 (a security of its own)
+            let tk = "SLV".to_string();
+            let d0 = l.iter().map(|t| t.date).max().unwrap_or(l[0].date) + Duration::days(40);
+            let h = Decimal::from(*r.pick(&[100i64, 33, 250]));
+            l.push(GTx::new(d0, &tk, Kind::Buy, h, Decimal::ONE, Decimal::ZERO));
+            let mut held = h;
+            if r.chance(1, 3) { l.push(GTx::new(d0 + Duration::days(2), &tk, Kind::Unsplit, Decimal::TWO, Decimal::ZERO, Decimal::ZERO)); held = h / Decimal::TWO; }
+            let sliver = match r.below(5) { 0 => Decimal::ZERO, 1 => Decimal::new(1, 6), 2 => Decimal::new(5, 7), 3 => Decimal::new(1, 9), _ => Decimal::new(1, 12) };
+            l.push(GTx::new(d0 + Duration::days(35), &tk, Kind::Sell, held + sliver, Decimal::TWO, Decimal::ZERO));
+            if r.chance(1, 2) { l.push(GTx::new(d0 + Duration::days(42), &tk, Kind::Buy, Decimal::from(10), Decimal::from(3), Decimal::ZERO)); }
         }
         4 => {
             // a day with a purchase and a larger sale than purchase + holding, repurchase within 30 days
@@ -146,7 +159,7 @@ pub fn run(ctx: &mut Ctx) {
     cfg.oversell_pct = 8;
     let n = ctx.n(500, 30_000);
     let base_cases = matcher_cases(prop, ctx, &cfg, n);
-    ctx.ev.rule = "corpus + fixtures + generated ledgers without cost events, each also in a hostile variant (earliest purchases dropped; a sale row duplicated; sale + companion sale + repurchase within 30 days; sale straddling a split/unsplit; same-day purchase + sale larger than purchase + holding + repurchase within 30 days; several disposals on different days identified with one later purchase followed by a further sale before it arrives; an earlier sale identified with a repurchase still to come and a second sale before it with a SPLIT/UNSPLIT on, just before or just after that sale's day): the real calculate() accepts iff an independent cumulative-position check over the raw lines says every (date, security) is covered; a refusal names an uncovered security and the earliest uncovered date; the Lean model agrees on accept/reject, error kind, security and date. Known-finding class inexactRatio (D3: a SPLIT/UNSPLIT ratio with a prime factor other than 2 and 5) is probed with its witness and directed ledgers, by the oracle only. A sample of refused and accepted ledgers is also run through the real CLI (exit status, stdout, --output file). Non-trivial = uncovered ledgers, and covered ledgers containing a 30-day match; distinct by ledger text.".into();
+    ctx.ev.rule = "corpus + fixtures + generated ledgers without cost events, each also in a hostile variant (earliest purchases dropped; a sale row duplicated; sale + companion sale + repurchase within 30 days; sale straddling a split/unsplit; same-day purchase + sale larger than purchase + holding + repurchase within 30 days; several disposals on different days identified with one later purchase followed by a further sale before it arrives; an earlier sale identified with a repurchase still to come and a second sale before it with a SPLIT/UNSPLIT on, just before or just after that sale's day; a sale of the whole holding plus 10⁻⁶ … 10⁻¹² of a share): the real calculate() accepts iff an independent cumulative-position check over the raw lines says every (date, security) is covered; a refusal names an uncovered security and the earliest uncovered date; the Lean model agrees on accept/reject, error kind, security and date. Known-finding class inexactRatio (D3: a SPLIT/UNSPLIT ratio with a prime factor other than 2 and 5) is probed with its witness and directed ledgers, by the oracle only. A sample of refused and accepted ledgers is also run through the real CLI (exit status, stdout, --output file). Non-trivial = uncovered ledgers, and covered ledgers containing a 30-day match; distinct by ledger text.".into();
     let ex = run_impl::wide_exemptions();
     let mut r = Rng::new(ctx.seed ^ 0xC05);
     let mut cli_budget: i64 = if ctx.tier == Tier::Quick { 24 } else { 300 };
